@@ -1041,13 +1041,15 @@ func c09RandCase(r *h.Rand) c09Case {
 		cs.Order = 1 + r.Intn(2)
 	}
 	cs.Ver = cs.Sup[r.Intn(len(cs.Sup))]
-	switch r.Intn(12) {
+	switch r.Intn(14) {
 	case 0:
 		cs.Ver = [2]int{3, 0}
 	case 1:
 		cs.Ver = [2]int{0, 0}
 	case 2:
 		cs.Ver = [2]int{1, 5}
+	case 3:
+		cs.Ver = [2]int{0, 1 + r.Intn(9)} // major 0 with a minor: unsupported like any other, echoed as it is
 	}
 	opts := []int{0, 1, 2, 2, 2, 1, 3, 4, 0}
 	cs.Opt = opts[r.Intn(len(opts))]
